@@ -12,15 +12,15 @@ tier=quick
 if [ "${1:-}" = "-t" ]; then tier=$2; shift 2; fi
 sel=${1:-all}; sub=${2:-}
 fail=0
-for p in mutants/*.patch; do
+for p in ${MUT_DIR:-mutants}/*.patch; do
   [ -e "$p" ] || continue
-  n=$(basename "$p" .patch); id=${n%%-*}
+  n=$(basename "$p" .patch); id=${n%%-*}; pp=$(realpath "$p")
   [ "$sel" != all ] && [ "$sel" != "$id" ] && continue
   [ -n "$sub" ] && [[ "$n" != *"$sub"* ]] && continue
   d=$(mktemp -d /tmp/vmut.XXXXXX)
   mkdir -p "$d/src" "$d/root"
   cp -r /repo/pkg /repo/go.mod /repo/go.sum "$d/src/"
-  if ! (cd "$d/src" && patch -s -p1 < "/verif/$p"); then echo "$n: PATCH-DOES-NOT-APPLY"; fail=1; rm -rf "$d"; continue; fi
+  if ! (cd "$d/src" && patch -s -p1 < "$pp"); then echo "$n: PATCH-DOES-NOT-APPLY"; fail=1; rm -rf "$d"; continue; fi
   # overlay: every patched file
   python3 - "$p" "$d" > "$d/overlay.json" <<'PY'
 import sys, json, re
